@@ -238,7 +238,12 @@ func account(c *core.Ctx, r *runner, hs []hop) {
 		if what == "" {
 			small, what = hs[:end], r.fail[p]
 		}
-		c.Violate(core.Violation{Kind: "property", What: propName[p] + ": " + what, Replay: []string{histString(small)}, Known: r.known[p]})
+		line := histString(small)
+		if r.clog {
+			line = "tbl.clog" + strings.TrimPrefix(line, "tbl.hist")
+			what += " (history run with a full notification channel: nobody reads Session.C)"
+		}
+		c.Violate(core.Violation{Kind: "property", What: propName[p] + ": " + what, Replay: []string{line}, Known: r.known[p]})
 		if r.known[p] != "" {
 			knownWitness[r.known[p]] = histString(small)
 		}
@@ -278,9 +283,13 @@ func Eval(c *core.Ctx, line string) *core.Case {
 				}
 				return "C05: " + bad + "   [" + line + "]", ""
 			}}
-	case "tbl.hist":
+	case "tbl.hist", "tbl.clog":
 		if len(f) > 2 {
 			return nil
+		}
+		if f[0] == "tbl.clog" {
+			clogged = true
+			defer func() { clogged = false }()
 		}
 		txt := ""
 		if len(f) == 2 {
@@ -611,6 +620,23 @@ func Gen(c *core.Ctx) {
 		}
 		r := runHist(c, hs, i%50 == 0, true, "random")
 		account(c, r, hs)
+	}
+	// 4. the same kind of random histories with a full notification channel (nobody reads Session.C): the state
+	//    oracles of C04 and C05 only; no model lines (added after wave-8 seed C04-w8s1)
+	if c.Prop != "C06" {
+		clogged = true
+		nc := c.Scale(60, 600)
+		for i := 0; i < nc; i++ {
+			n := 10 + c.Rnd.Intn(120)
+			hs := make([]hop, n)
+			for j := range hs {
+				hs[j] = randHop(c.Rnd, i%2 == 1)
+			}
+			r := runHist(c, hs, i%20 == 0, false, "clogged")
+			account(c, r, hs)
+		}
+		clogged = false
+		ex["histories_clogged"] = nc
 	}
 	c.Flush()
 	if dumpLines != nil {
